@@ -63,6 +63,14 @@ SHAPED += [
     (1, 4, 2, 2, 1, 2, [[(0, 0), (0, 1)], [(0, 2), (0, 3)]]),       # move into a block at max_block_size
     (2, 2, 2, 2, 2, 2, [[(0, 0), (0, 1)], [(1, 0), (1, 1)]]),       # everything tight on a 2x2 board
 ]
+# allow_unmet_constraints_first=True: initial() hands out the given blocks although the block count is still below its minimum; what
+# candidates() proposes from there must still be partitions into connected blocks (8th element "unmet": the starting value itself is
+# only checked for that, the proposed values for everything but the lower count bound).  Rooms with a hub and arms (T, plus) have no
+# split into two connected parts of two cells each: a fallback that forces one produces a disconnected block.
+UNMET = [
+    (3, 3, 3, None, 2, None, [[(0, 0), (0, 1), (0, 2), (1, 1)], [(1, 0), (2, 0), (2, 1), (2, 2), (1, 2)]], "unmet"),
+    (3, 3, 4, None, 2, None, [[(0, 1), (1, 0), (1, 1), (1, 2), (2, 1)], [(0, 0)], [(0, 2)], [(2, 0)], [(2, 2)]][:1] + [[(0, 0)], [(0, 2)], [(2, 0)], [(2, 2)]], "unmet"),
+]
 # bounds no partition can meet (or that the random walk cannot reach): initial() may give up by raising, it must not return
 STUCK = [
     (2, 2, None, None, 3, 3),
@@ -112,7 +120,8 @@ def validity(value: Any, cfg: Tuple) -> Optional[str]:
 def _job(args) -> Tuple[str, Optional[str], int]:
     root, overrides, cfg, script = args
     init_blocks = None
-    if len(cfg) == 7:
+    unmet = len(cfg) == 8
+    if len(cfg) >= 7:
         init_blocks = cfg[6]
         cfg = cfg[:6]
     repo = Repo(root, overrides)
@@ -134,8 +143,12 @@ def _job(args) -> Tuple[str, Optional[str], int]:
     h, w, mnb, mxb, mns, mxs = cfg
     n = 0
     try:
+        kw = {"allow_unmet_constraints_first": True} if unmet else {}
         b = cw.new("SegmentationBuilder2D", h, w, min_num_blocks=mnb, max_num_blocks=mxb, min_block_size=mns, max_block_size=mxs,
-                   initial_blocks=copy.deepcopy(init_blocks))
+                   initial_blocks=copy.deepcopy(init_blocks), **kw)
+        if unmet:
+            # only "partition into connected blocks" is asked of the values here (the bounds are unmet by construction)
+            cfg = (h, w, None, None, None, None)
         cw.ev.steps = 0
         try:
             init = cw.method(b, "initial")()
@@ -192,7 +205,7 @@ def _job(args) -> Tuple[str, Optional[str], int]:
 def evaluation(repo: Repo, rep: Report) -> None:
     rep.rule("SEG-E", "every value reachable from initial() through proposed updates is a partition into connected blocks within all bounds; updates never mutate their input")
     rep.saw(SEG)
-    jobs = [(repo.root, repo.overrides, cfg, sc) for cfg in CONFIGS + STUCK for sc in SCRIPTS] + [(repo.root, repo.overrides, cfg, sc) for cfg in SHAPED for sc in SCRIPTS]
+    jobs = [(repo.root, repo.overrides, cfg, sc) for cfg in CONFIGS + STUCK for sc in SCRIPTS] + [(repo.root, repo.overrides, cfg, sc) for cfg in SHAPED + UNMET for sc in SCRIPTS]
     with ProcessPoolExecutor(max_workers=16) as ex:
         results = list(ex.map(_job, jobs))
     bad = [r for r in results if r[0] == "bad"]
